@@ -50,11 +50,15 @@ def gen_scenario(rng, d, big=False, many=False):
             "X2": {"executions": rng.choice([[{"E2": {"suites": ["S2"]}}], [{"E1": {"suites": ["S1"]}}, {"E2": {"suites": ["S1", "S2"]}}]])}}
     if rng.random() < 0.25:
         del exps["X2"]
-    files = {"X1": os.path.join(d, "default.data")}
+    # every fifth scenario: data files whose names are as long as the file system allows (255 bytes); the rewrite must not
+    # depend on room for a longer name next to them
+    long_names = rng.random() < 0.2
+    files = {"X1": os.path.join(d, ("d" * 250 + ".data") if long_names else "default.data")}
     if "X2" in exps:
         if two_files:
-            exps["X2"]["data_file"] = os.path.join(d, "x2.data")
-            files["X2"] = os.path.join(d, "x2.data")
+            x2name = ("\u6570" * 83 + ".data") if long_names else "x2.data"      # 83 * 3 + 5 = 254 bytes in UTF-8
+            exps["X2"]["data_file"] = os.path.join(d, x2name)
+            files["X2"] = os.path.join(d, x2name)
         else:
             files["X2"] = files["X1"]
     raw = {"executors": {"E1": {"path": "/x", "executable": "exe1"}, "E2": {"path": "/x", "executable": "exe2"}},
